@@ -113,7 +113,7 @@ func RandomHistories(w *WorldJSON, seed int64, n, depth int, routers []string, f
 				if fm := faultMethods[op]; len(fm) > 0 && (rng.Intn(10) == 0 || ((focus == "faults" || focus == "authorize") && rng.Intn(3) == 0)) {
 					// C10: a storage call fails while this request is served
 					args["fault"] = fm[rng.Intn(len(fm))]
-					args["faultKind"] = []string{"error", "oidc", "oidc", "typednil"}[rng.Intn(4)]
+					args["faultKind"] = []string{"error", "oidc", "oidc", "typednil", "canceled"}[rng.Intn(5)]
 				}
 				emit(op, args)
 			}
